@@ -79,8 +79,20 @@ def build_config(rng):
         fkind = rng.choice(["poisson_int", "intbinomial"])
         lo, width = rng.choice([0, 1, 2]), rng.randint(22, 36)
         hi = lo + width
+    hubs = False
+    if T == 2 and rng.random() < 0.12:
+        # hubs: overall degrees around a thousand, the degree function a table of vertex COUNTS (unnormalised, 1e6..1e8): the weight of one
+        # split is then about 0.5**1000 = 1e-301, still a float, and count / weight is not
+        hubs = True
+        lo, width = rng.randint(940, 1060), rng.randint(2, 6)
+        hi = lo + width
+        fkind = "table"
+        if style != "equal" and rng.random() < 0.6:
+            probs = [0.5, 0.5]
     if fkind.startswith("table"):
-        tab = {k: rng.choice([0.5, 1.0, 2.0, 3.0, 0.25, rng.random() + 0.01]) for k in range(0, hi + 3)}
+        tab = {k: rng.choice([0.5, 1.0, 2.0, 3.0, 0.25, rng.random() + 0.01]) for k in (range(0, hi + 3) if not hubs else range(lo - 2, hi + 3))}
+        if hubs:
+            tab = {k: float(rng.randint(10 ** 6, 10 ** 8)) for k in tab}
         if fkind == "table_zero":
             for k in rng.sample(range(lo, hi + 1), min(2, width)):
                 tab[k] = 0.0
@@ -103,6 +115,8 @@ def build_config(rng):
     target = None
     if loader == "delta":
         target = rng.choice([lo, hi - 1, hi, rng.randint(lo, hi), lo - 1, hi + 2, rng.randint(lo, hi), 0, 0, 1])
+    if hubs:
+        loader = rng.choice(["split", "split", "delta"])
     path = rng.choice(["direct", "dispatcher"])
     recreate = rng.choice([0, 0, 1, 2])
     return {"recreate": recreate, "T": T, "probs": probs, "lo": lo, "hi": hi, "fkind": fkind, "fpar": fpar, "loader": loader,
